@@ -61,11 +61,35 @@ Definition content_op (o : wop) : option (handle * elem) :=
   | _ => None
   end.
 
+Definition handle_eqb (a b : handle) : bool := list_eqb Nat.eqb a b.
+
+(* operations that add an option or a content element to the writer at handle h *)
+Definition addressed (h : handle) (o : wop) : bool :=
+  match o with
+  | OOption h' _ _ => handle_eqb h' h
+  | _ => match content_op o with Some (h', _) => handle_eqb h' h | None => false end
+  end.
+Definition opts_of (ops : list wop) : list (str * str) :=
+  flat_map (fun o => match o with OOption _ n v => [(n, v)] | _ => [] end) ops.
+Definition kids_of (ops : list wop) : list elem :=
+  flat_map (fun o => match content_op o with Some (_, x) => [x] | None => [] end) ops.
+
 Fixpoint is_prefix (a b : list nat) : bool :=
   match a, b with
   | [], _ => true
   | x :: a', y :: b' => Nat.eqb x y && is_prefix a' b'
   | _ :: _, [] => false
+  end.
+
+Definition strict_prefix (a b : list nat) : bool := is_prefix a b && negb (handle_eqb a b).
+
+(* operations after which the directive handle h certainly still names the same directive:
+   everything except clear() on a proper ancestor and a title change of h itself *)
+Definition harmless (h : handle) (o : wop) : bool :=
+  match o with
+  | OClear h0 => negb (strict_prefix h0 h)
+  | OSetTitle h0 _ => negb (handle_eqb h0 h)
+  | _ => true
   end.
 
 (* ------------------------------------------------------------------ *)
@@ -871,3 +895,755 @@ Proof.
     destruct (sub_upd p j g e); [discriminate|]. intros _. exfalso.
     apply Hs; [discriminate | reflexivity].
 Qed.
+
+Lemma find_nth_error_eq : forall q k lvl d b1 b2, nth_error b1 k = nth_error b2 k ->
+  find_in_body q k lvl d b1 = find_in_body q k lvl d b2.
+Proof.
+  intros q k lvl d b1 b2 H. destruct q as [|j q].
+  - rewrite !find_in_body_nil, H. reflexivity.
+  - rewrite !find_in_body_cons, H. reflexivity.
+Qed.
+
+(* an update succeeds exactly when the handle is valid and f accepts the node; the node
+   at the handle is then replaced by its image *)
+Lemma find_upd : forall p i f b lvl d e l' d',
+  find_in_body p i lvl d b = Some (e, l', d') ->
+  match f e with
+  | Some e' => exists b', upd_in_body p i f b = Some b' /\
+                          find_in_body p i lvl d b' = Some (e', l', d')
+  | None => upd_in_body p i f b = None
+  end.
+Proof.
+  intros p. induction p as [|j p IH]; intros i f b lvl d e l' d' H.
+  - rewrite find_in_body_nil in H. destruct (nth_error b i) as [e0|] eqn:E; [|discriminate].
+    injection H as H1 H2 H3. subst e0 l' d'. rewrite upd_in_body_nil, E.
+    destruct (f e) as [e'|]; [|reflexivity].
+    eexists. split; [reflexivity|].
+    rewrite find_in_body_nil, nth_error_update_nth_eq, E. reflexivity.
+  - rewrite find_in_body_cons in H.
+    destruct (nth_error b i) as [e0|] eqn:E; [|discriminate].
+    rewrite upd_in_body_cons, upd_in_body_nil, E.
+    destruct e0 as [| | | |n a o body|t body]; try discriminate H; cbn [sub_find] in H;
+      cbn [sub_upd]; specialize (IH j f body _ _ _ _ _ H); destruct (f e) as [e'|].
+    + destruct IH as [body' [U F]]. rewrite U. cbn [option_map]. eexists. split; [reflexivity|].
+      rewrite find_in_body_cons, nth_error_update_nth_eq, E. exact F.
+    + rewrite IH. reflexivity.
+    + destruct IH as [body' [U F]]. rewrite U. cbn [option_map]. eexists. split; [reflexivity|].
+      rewrite find_in_body_cons, nth_error_update_nth_eq, E. exact F.
+    + rewrite IH. reflexivity.
+Qed.
+
+Lemma upd_valid : forall p i f b b' lvl d, upd_in_body p i f b = Some b' ->
+  exists e l' d', find_in_body p i lvl d b = Some (e, l', d') /\ f e <> None.
+Proof.
+  intros p. induction p as [|j p IH]; intros i f b b' lvl d H.
+  - rewrite upd_in_body_nil in H. rewrite find_in_body_nil.
+    destruct (nth_error b i) as [e0|]; [|discriminate].
+    exists e0, lvl, d. split; [reflexivity|]. destruct (f e0); [discriminate | discriminate].
+  - rewrite upd_in_body_cons, upd_in_body_nil in H. rewrite find_in_body_cons.
+    destruct (nth_error b i) as [e0|]; [|discriminate].
+    destruct e0 as [| | | |n a o body|t body]; try discriminate H; cbn [sub_upd] in H;
+      cbn [sub_find]; destruct (upd_in_body p j f body) as [body'|] eqn:U;
+      try discriminate H; eapply IH; exact U.
+Qed.
+
+Definition keeps_children (f : elem -> option elem) : Prop :=
+  forall e e', f e = Some e' ->
+  forall q j lvl d v, sub_find q j lvl d e = Some v -> sub_find q j lvl d e' = Some v.
+
+(* handles that are not prefixes of the updated one still find what they found *)
+Lemma upd_other : forall p i f b b', upd_in_body p i f b = Some b' -> keeps_children f ->
+  forall q k lvl d v, is_prefix (k :: q) (i :: p) = false ->
+  find_in_body q k lvl d b = Some v -> find_in_body q k lvl d b' = Some v.
+Proof.
+  intros p. induction p as [|j p IH]; intros i f b b' H K q k lvl d v Hp Hf.
+  - rewrite upd_in_body_nil in H. destruct (nth_error b i) as [e|] eqn:E; [|discriminate].
+    destruct (f e) as [e'|] eqn:Ef; [|discriminate]. injection H as H. subst b'.
+    destruct (Nat.eqb_spec k i) as [Eki|Eki].
+    + subst k. cbn [is_prefix] in Hp. rewrite Nat.eqb_refl in Hp. cbn [andb] in Hp.
+      destruct q as [|j q]; [discriminate Hp|].
+      rewrite find_in_body_cons in *. rewrite nth_error_update_nth_eq, E in *.
+      cbn [option_map]. exact (K e e' Ef _ _ _ _ _ Hf).
+    + rewrite <- Hf. apply find_nth_error_eq. apply nth_error_update_nth_ne. congruence.
+  - rewrite upd_in_body_cons, upd_in_body_nil in H.
+    destruct (nth_error b i) as [e|] eqn:E; [|discriminate].
+    destruct (sub_upd p j f e) as [e'|] eqn:Es; [|discriminate]. injection H as H. subst b'.
+    destruct (Nat.eqb_spec k i) as [Eki|Eki].
+    + subst k. cbn [is_prefix] in Hp. rewrite Nat.eqb_refl in Hp. cbn [andb] in Hp.
+      destruct q as [|j2 q]; [discriminate Hp|].
+      rewrite find_in_body_cons in *. rewrite nth_error_update_nth_eq, E in *.
+      cbn [option_map].
+      destruct e as [| | | |n a o body|t body]; try discriminate Es; cbn [sub_upd] in Es;
+        destruct (upd_in_body p j f body) as [body'|] eqn:U; try discriminate Es;
+        injection Es as Es; subst e'; cbn [sub_find] in *;
+        exact (IH j f body body' U K q j2 _ _ v Hp Hf).
+    + rewrite <- Hf. apply find_nth_error_eq. apply nth_error_update_nth_ne. congruence.
+Qed.
+
+Fixpoint diverge (a b : list nat) : bool :=
+  match a, b with
+  | x :: a', y :: b' => negb (Nat.eqb x y) || diverge a' b'
+  | _, _ => false
+  end.
+
+(* handles that leave the updated path see no change at all *)
+Lemma upd_diverge : forall p i f b b', upd_in_body p i f b = Some b' ->
+  forall q k lvl d, diverge (k :: q) (i :: p) = true ->
+  find_in_body q k lvl d b' = find_in_body q k lvl d b.
+Proof.
+  intros p. induction p as [|j p IH]; intros i f b b' H q k lvl d Hd.
+  - rewrite upd_in_body_nil in H. destruct (nth_error b i) as [e|] eqn:E; [|discriminate].
+    destruct (f e) as [e'|] eqn:Ef; [|discriminate]. injection H as H. subst b'.
+    cbn [diverge] in Hd. replace (diverge q []) with false in Hd by (destruct q; reflexivity).
+    rewrite orb_false_r in Hd. apply negb_true_iff, Nat.eqb_neq in Hd.
+    apply find_nth_error_eq. apply nth_error_update_nth_ne. congruence.
+  - rewrite upd_in_body_cons, upd_in_body_nil in H.
+    destruct (nth_error b i) as [e|] eqn:E; [|discriminate].
+    destruct (sub_upd p j f e) as [e'|] eqn:Es; [|discriminate]. injection H as H. subst b'.
+    destruct (Nat.eqb_spec k i) as [Eki|Eki].
+    + subst k. cbn [diverge] in Hd. rewrite Nat.eqb_refl in Hd. cbn [negb orb] in Hd.
+      destruct q as [|j2 q]; [discriminate Hd|].
+      rewrite !find_in_body_cons. rewrite nth_error_update_nth_eq, E. cbn [option_map].
+      destruct e as [| | | |n a o body|t body]; try discriminate Es; cbn [sub_upd] in Es;
+        destruct (upd_in_body p j f body) as [body'|] eqn:U; try discriminate Es;
+        injection Es as Es; subst e'; cbn [sub_find];
+        exact (IH j f body body' U q j2 _ _ Hd).
+    + apply find_nth_error_eq. apply nth_error_update_nth_ne. congruence.
+Qed.
+
+Definition same_head (e e' : elem) : Prop :=
+  match e, e' with
+  | Dir n a o _, Dir n' a' o' _ => n = n' /\ a = a' /\ o = o'
+  | Sect t _, Sect t' _ => t = t'
+  | _, _ => False
+  end.
+
+(* ancestors of the updated handle keep their kind, name, arguments and options *)
+Lemma upd_ancestor : forall q k r f b b' lvl d e l' d', r <> [] ->
+  upd_in_body (q ++ r) k f b = Some b' ->
+  find_in_body q k lvl d b = Some (e, l', d') ->
+  exists e', find_in_body q k lvl d b' = Some (e', l', d') /\ same_head e e'.
+Proof.
+  intros q. induction q as [|j2 q IH]; intros k r f b b' lvl d e l' d' Hr H Hf.
+  - destruct r as [|j p]; [congruence|]. cbn [app] in H.
+    rewrite upd_in_body_cons, upd_in_body_nil in H. rewrite find_in_body_nil in *.
+    destruct (nth_error b k) as [e0|] eqn:E; [|discriminate].
+    injection Hf as H1 H2 H3. subst e0 l' d'.
+    destruct (sub_upd p j f e) as [e'|] eqn:Es; [|discriminate]. injection H as H. subst b'.
+    exists e'. rewrite nth_error_update_nth_eq, E. split; [reflexivity|].
+    destruct e as [| | | |n a o body|t body]; try discriminate Es; cbn [sub_upd] in Es;
+      destruct (upd_in_body p j f body); try discriminate Es; injection Es as Es; subst e';
+      cbn [same_head]; auto.
+  - cbn [app] in H. rewrite upd_in_body_cons, upd_in_body_nil in H.
+    rewrite find_in_body_cons in *.
+    destruct (nth_error b k) as [e0|] eqn:E; [|discriminate].
+    destruct (sub_upd (q ++ r) j2 f e0) as [e0'|] eqn:Es; [|discriminate].
+    injection H as H. subst b'. rewrite nth_error_update_nth_eq, E. cbn [option_map].
+    destruct e0 as [| | | |n a o body|t body]; try discriminate Es; cbn [sub_upd] in Es;
+      destruct (upd_in_body (q ++ r) j2 f body) as [body'|] eqn:U; try discriminate Es;
+      injection Es as Es; subst e0'; cbn [sub_find] in *;
+      exact (IH j2 r f body body' _ _ e l' d' Hr U Hf).
+Qed.
+
+(* ---- lifting to states ---- *)
+
+Definition app_state (h : handle) (f : elem -> option elem) (st : wstate) : wstate :=
+  match upd_node h f st with Some st' => st' | None => st end.
+
+Definition add_opt (n v : str) (e : elem) : option elem :=
+  match e with Dir nm a o b => Some (Dir nm a (o ++ [(n, v)]) b) | _ => None end.
+
+Lemma upd_node_cons : forall i p f st,
+  upd_node (i :: p) f st
+  = match upd_in_body p i f (w_body st) with
+    | Some b => Some {| w_title := w_title st; w_body := b |}
+    | None => None
+    end.
+Proof. reflexivity. Qed.
+
+Lemma content_step_state : forall hdrs st o h x, content_op o = Some (h, x) ->
+  fst (wstep hdrs st o) = app_state h (append_child x) st.
+Proof.
+  intros hdrs st o h x H. unfold app_state.
+  destruct o; try discriminate H; cbn [content_op] in H; injection H as H1 H2; subst;
+    cbn [wstep]; destruct (upd_node h _ st); reflexivity.
+Qed.
+
+Lemma option_step_state : forall hdrs st i p n v,
+  fst (wstep hdrs st (OOption (i :: p) n v)) = app_state (i :: p) (add_opt n v) st.
+Proof.
+  intros. unfold app_state. cbn [wstep]. fold (add_opt n v).
+  destruct (upd_node (i :: p) (add_opt n v) st); reflexivity.
+Qed.
+
+Lemma count_of_append : forall h x st st', upd_node h (append_child x) st = Some st' ->
+  exists k, count_at h st = Some k.
+Proof.
+  intros h x st st' H. destruct h as [|i p]; [eexists; reflexivity|].
+  rewrite upd_node_cons in H.
+  destruct (upd_in_body p i (append_child x) (w_body st)) as [b'|] eqn:U; [|discriminate].
+  destruct (upd_valid _ _ _ _ _ 0 0 U) as [e [l' [d' [F Ne]]]].
+  unfold count_at, node_at. rewrite F.
+  destruct e; try (exfalso; apply Ne; reflexivity); eexists; reflexivity.
+Qed.
+
+Lemma directive_step_state : forall hdrs st h n a,
+  fst (wstep hdrs st (ODirective h n a)) = app_state h (append_child (Dir n a [] [])) st.
+Proof.
+  intros. unfold app_state. cbn [wstep].
+  destruct (upd_node h (append_child (Dir n a [] [])) st) as [st'|] eqn:U.
+  - destruct (count_of_append _ _ _ _ U) as [k Hk]. rewrite Hk. reflexivity.
+  - destruct (count_at h st); reflexivity.
+Qed.
+
+(* two updates at the same handle whose node functions commute and whose domains are
+   compatible commute as state transformers, whether or not they succeed *)
+Lemma app_state_commute : forall i p fa fo st,
+  (forall e, bind_opt (fa e) fo = bind_opt (fo e) fa) ->
+  (forall e, fo e <> None -> bind_opt (fo e) fa <> None) ->
+  app_state (i :: p) fo (app_state (i :: p) fa st)
+  = app_state (i :: p) fa (app_state (i :: p) fo st).
+Proof.
+  intros i p fa fo st Hc Hd. unfold app_state.
+  rewrite (upd_node_cons i p fa st), (upd_node_cons i p fo st).
+  pose proof (upd_compose p i fa fo (w_body st)) as C1.
+  pose proof (upd_compose p i fo fa (w_body st)) as C2.
+  rewrite (upd_ext p i _ _ (w_body st) Hc) in C1. rewrite <- C2 in C1. clear C2.
+  destruct (upd_in_body p i fo (w_body st)) as [b1'|] eqn:EO.
+  - assert (Hs : upd_in_body p i fa b1' <> None).
+    { change (upd_in_body p i fa b1') with (bind_opt (Some b1') (upd_in_body p i fa)).
+      rewrite <- EO, upd_compose. apply (upd_dom p i fo); [exact Hd|]. congruence. }
+    cbn [bind_opt] in C1.
+    destruct (upd_in_body p i fa b1') as [b2'|] eqn:EA2; [|congruence].
+    destruct (upd_in_body p i fa (w_body st)) as [b1|] eqn:EA; [|discriminate C1].
+    cbn [bind_opt] in C1. rewrite !upd_node_cons. cbn [w_body w_title].
+    rewrite C1, EA2. reflexivity.
+  - cbn [bind_opt] in C1.
+    destruct (upd_in_body p i fa (w_body st)) as [b1|] eqn:EA.
+    + cbn [bind_opt] in C1. rewrite !upd_node_cons. cbn [w_body w_title].
+      rewrite C1, EA. reflexivity.
+    + rewrite !upd_node_cons. rewrite EO, EA. reflexivity.
+Qed.
+
+(* S4, API level: an option and a content element added to the same handle commute
+   (in every case: if the handle is not a directive the option call is a no-op error) *)
+Theorem option_then_content_commute : forall hdrs st o h x n v,
+  content_op o = Some (h, x) \/ (exists nm a, o = ODirective h nm a /\ x = Dir nm a [] []) ->
+  fst (wstep hdrs (fst (wstep hdrs st o)) (OOption h n v))
+  = fst (wstep hdrs (fst (wstep hdrs st (OOption h n v))) o).
+Proof.
+  intros hdrs st o h x n v Ho.
+  assert (Hst : forall st0, fst (wstep hdrs st0 o) = app_state h (append_child x) st0).
+  { intros st0. destruct Ho as [Ho|[nm [a [Ho Hx]]]].
+    - apply content_step_state. exact Ho.
+    - subst o x. apply directive_step_state. }
+  rewrite !Hst. destruct h as [|i p]; [reflexivity|].
+  rewrite !option_step_state. apply app_state_commute.
+  - intros e. destruct e; reflexivity.
+  - intros e. destruct e; cbn [add_opt bind_opt append_child]; congruence.
+Qed.
+
+Corollary option_then_text_commute : forall hdrs st h t n v,
+  fst (wstep hdrs (fst (wstep hdrs st (OText h t))) (OOption h n v))
+  = fst (wstep hdrs (fst (wstep hdrs st (OOption h n v))) (OText h t)).
+Proof.
+  intros. apply (option_then_content_commute hdrs st (OText h t) h (Para t)).
+  left. reflexivity.
+Qed.
+
+(* ------------------------------------------------------------------ *)
+(* S4 (API level, continued): a directive accumulates its options and   *)
+(* children in call order; the interleaving is irrelevant              *)
+
+Lemma handle_eqb_eq : forall a b, handle_eqb a b = true <-> a = b.
+Proof.
+  unfold handle_eqb. intros a. induction a as [|x a IH]; intros b; destruct b as [|y b];
+    cbn [list_eqb]; try (split; [discriminate | congruence]).
+  - split; reflexivity.
+  - rewrite andb_true_iff, Nat.eqb_eq, IH. split; [intros [H1 H2]; congruence|].
+    intros H. injection H as H1 H2. auto.
+Qed.
+
+Lemma wrun_cons_fst : forall hdrs st o r,
+  fst (wrun hdrs st (o :: r)) = fst (wrun hdrs (fst (wstep hdrs st o)) r).
+Proof.
+  intros. cbn [wrun]. destruct (wstep hdrs st o) as [st1 out]. cbn [fst].
+  destruct (wrun hdrs st1 r). reflexivity.
+Qed.
+
+Lemma node_upd : forall h f st e lvl d e', node_at h st = Some (e, lvl, d) -> f e = Some e' ->
+  exists st', upd_node h f st = Some st' /\ node_at h st' = Some (e', lvl, d) /\
+              w_title st' = w_title st.
+Proof.
+  intros h f st e lvl d e' H Hf. destruct h as [|i p]; [discriminate H|].
+  cbn [node_at] in H. pose proof (find_upd p i f _ _ _ _ _ _ H) as U. rewrite Hf in U.
+  destruct U as [b' [U F]]. rewrite upd_node_cons, U. eexists. split; [reflexivity|].
+  split; [exact F | reflexivity].
+Qed.
+
+Lemma addressed_cases : forall h o, addressed h o = true ->
+  (exists n v, o = OOption h n v) \/ (exists x, content_op o = Some (h, x)).
+Proof.
+  intros h o H. destruct o; cbn [addressed content_op] in H; try discriminate H;
+    apply handle_eqb_eq in H; subst;
+    first [ left; do 2 eexists; reflexivity | right; eexists; reflexivity ].
+Qed.
+
+Theorem dir_accumulates : forall hdrs ops st h nm a o b lvl d,
+  forallb (addressed h) ops = true ->
+  node_at h st = Some (Dir nm a o b, lvl, d) ->
+  node_at h (fst (wrun hdrs st ops))
+  = Some (Dir nm a (o ++ opts_of ops) (b ++ kids_of ops), lvl, d).
+Proof.
+  intros hdrs ops. induction ops as [|op r IH]; intros st h nm a o b lvl d Ha Hn.
+  - cbn [wrun fst opts_of kids_of flat_map]. rewrite !app_nil_r. exact Hn.
+  - cbn [forallb] in Ha. apply andb_true_iff in Ha. destruct Ha as [Ha Hr].
+    rewrite wrun_cons_fst.
+    destruct (addressed_cases h op Ha) as [[n [v E]]|[x E]].
+    + subst op. destruct h as [|i p]; [discriminate Hn|]. rewrite option_step_state.
+      destruct (node_upd (i :: p) (add_opt n v) st _ _ _ _ Hn eq_refl) as [st' [U [N _]]].
+      unfold app_state. rewrite U. rewrite (IH st' _ _ _ _ _ _ _ Hr N).
+      cbn [opts_of kids_of flat_map content_op app]. rewrite <- app_assoc. reflexivity.
+    + rewrite (content_step_state hdrs st op h x E).
+      destruct (node_upd h (append_child x) st _ _ _ _ Hn eq_refl) as [st' [U [N _]]].
+      unfold app_state. rewrite U. rewrite (IH st' _ _ _ _ _ _ _ Hr N).
+      assert (Eo : opts_of (op :: r) = opts_of r).
+      { destruct op; try discriminate E; reflexivity. }
+      rewrite Eo. cbn [kids_of flat_map]. rewrite E. cbn [app]. rewrite <- app_assoc.
+      reflexivity.
+Qed.
+
+(* the text of the directive depends only on the sequence of options and the sequence of
+   content elements, not on how the calls were interleaved *)
+Theorem interleaving_irrelevant : forall hdrs st h nm a o b lvl d ops1 ops2,
+  node_at h st = Some (Dir nm a o b, lvl, d) ->
+  forallb (addressed h) ops1 = true -> forallb (addressed h) ops2 = true ->
+  opts_of ops1 = opts_of ops2 -> kids_of ops1 = kids_of ops2 ->
+  snd (wstep hdrs (fst (wrun hdrs st ops1)) (OToText h))
+  = WText (elem_text hdrs lvl d (Dir nm a (o ++ opts_of ops1) (b ++ kids_of ops1))) /\
+  snd (wstep hdrs (fst (wrun hdrs st ops1)) (OToText h))
+  = snd (wstep hdrs (fst (wrun hdrs st ops2)) (OToText h)).
+Proof.
+  intros hdrs st h nm a o b lvl d ops1 ops2 Hn H1 H2 Eo Ek.
+  pose proof (dir_accumulates hdrs ops1 st h _ _ _ _ _ _ H1 Hn) as N1.
+  pose proof (dir_accumulates hdrs ops2 st h _ _ _ _ _ _ H2 Hn) as N2.
+  rewrite <- Eo, <- Ek in N2.
+  destruct h as [|i p]; [discriminate Hn|].
+  cbn [wstep]. rewrite N1, N2. split; reflexivity.
+Qed.
+
+Example ex_interleaving :
+  let st := fst (wrun [s"#"] (winit (s"T")) [ODirective [] (s"d") [s"x"]]) in
+  snd (wstep [s"#"] (fst (wrun [s"#"] st
+        [OText [0] (s"p"); OOption [0] (s"k") (s"v"); OBullets [0] [s"i"];
+         OOption [0] (s"k2") (s"v2")])) (OToText [0]))
+  = snd (wstep [s"#"] (fst (wrun [s"#"] st
+        [OOption [0] (s"k") (s"v"); OOption [0] (s"k2") (s"v2"); OText [0] (s"p");
+         OBullets [0] [s"i"]])) (OToText [0]))
+  /\ lines (match snd (wstep [s"#"] (fst (wrun [s"#"] st
+        [OText [0] (s"p"); OOption [0] (s"k") (s"v"); OBullets [0] [s"i"];
+         OOption [0] (s"k2") (s"v2")])) (OToText [0])) with WText t => t | _ => [] end)
+     = [ []; s".. d:: x"; s"   :k: v"; s"   :k2: v2"; []; s"   p"; []; s"   * i"; []; [] ].
+Proof. vm_compute. split; reflexivity. Qed.
+
+(* ------------------------------------------------------------------ *)
+(* S5 (API level): add_child appends as the last child of that node     *)
+
+Lemma find_app : forall q j lvl d b b2 v, find_in_body q j lvl d b = Some v ->
+  find_in_body q j lvl d (b ++ b2) = Some v.
+Proof.
+  intros q j lvl d b b2 v H. rewrite <- H. apply find_nth_error_eq.
+  assert (Hj : nth_error b j <> None).
+  { destruct q; [rewrite find_in_body_nil in H | rewrite find_in_body_cons in H];
+      destruct (nth_error b j); congruence. }
+  apply nth_error_app1. apply nth_error_Some. exact Hj.
+Qed.
+
+Lemma keeps_children_append : forall x, keeps_children (append_child x).
+Proof.
+  intros x e e' H q j lvl d v Hf.
+  destruct e; try discriminate H; cbn [append_child] in H; injection H as H; subst e';
+    cbn [sub_find] in *; apply find_app; exact Hf.
+Qed.
+
+Lemma keeps_children_add_opt : forall n v, keeps_children (add_opt n v).
+Proof.
+  intros n v e e' H q j lvl d v0 Hf.
+  destruct e; try discriminate H; cbn [add_opt] in H; injection H as H; subst e'. exact Hf.
+Qed.
+
+Theorem append_at_handle : forall hdrs st h t nm a o b lvl d,
+  node_at h st = Some (Dir nm a o b, lvl, d) ->
+  let st' := fst (wstep hdrs st (OText h t)) in
+  snd (wstep hdrs st (OText h t)) = WNone /\
+  node_at h st' = Some (Dir nm a o (b ++ [Para t]), lvl, d) /\
+  w_title st' = w_title st /\
+  length (w_body st') = length (w_body st) /\
+  (forall h' v, is_prefix h' h = false -> node_at h' st = Some v -> node_at h' st' = Some v) /\
+  (forall h' e l' d', strict_prefix h' h = true -> node_at h' st = Some (e, l', d') ->
+     exists e', node_at h' st' = Some (e', l', d') /\ same_head e e').
+Proof.
+  intros hdrs st h t nm a o b lvl d Hn st'.
+  destruct (node_upd h (append_child (Para t)) st _ _ _ _ Hn eq_refl) as [st1 [U [N T]]].
+  assert (E : wstep hdrs st (OText h t) = (st1, WNone)).
+  { cbn [wstep]. rewrite U. reflexivity. }
+  subst st'. rewrite E. cbn [fst snd].
+  split; [reflexivity|]. split; [exact N|]. split; [exact T|].
+  destruct h as [|i p]; [discriminate Hn|]. rewrite upd_node_cons in U.
+  destruct (upd_in_body p i (append_child (Para t)) (w_body st)) as [b'|] eqn:Ub;
+    [|discriminate U]. injection U as U. subst st1. cbn [w_body].
+  split; [|split].
+  - clear - Ub. revert Ub. destruct p as [|j p].
+    + rewrite upd_in_body_nil. destruct (nth_error (w_body st) i); [|discriminate].
+      destruct (append_child (Para t) e); [|discriminate]. intros H. injection H as H.
+      subst b'. clear. revert i. induction (w_body st) as [|x r IH]; intros i;
+        destruct i; cbn [update_nth length]; auto.
+    + rewrite upd_in_body_cons, upd_in_body_nil. destruct (nth_error (w_body st) i); [|discriminate].
+      destruct (sub_upd p j (append_child (Para t)) e); [|discriminate]. intros H.
+      injection H as H. subst b'. clear. revert i. induction (w_body st) as [|x r IH]; intros i;
+        destruct i; cbn [update_nth length]; auto.
+  - intros h' v Hp Hf. destruct h' as [|k q]; [discriminate Hf|]. cbn [node_at w_body] in *.
+    exact (upd_other p i _ _ _ Ub (keeps_children_append _) q k 0 0 v Hp Hf).
+  - intros h' e l' d' Hp Hf. destruct h' as [|k q]; [discriminate Hf|]. cbn [node_at w_body] in *.
+    unfold strict_prefix in Hp. apply andb_true_iff in Hp. destruct Hp as [Hp Hne].
+    assert (Hr : exists r, r <> [] /\ i :: p = (k :: q) ++ r).
+    { clear - Hp Hne. revert Hp Hne. generalize (i :: p) as hh. generalize (k :: q) as h'.
+      induction h' as [|x h' IH]; intros hh Hp Hne.
+      - exists hh. split; [|reflexivity]. intros ->. discriminate Hne.
+      - destruct hh as [|y hh]; [discriminate Hp|]. cbn [is_prefix] in Hp.
+        apply andb_true_iff in Hp. destruct Hp as [Hxy Hp]. apply Nat.eqb_eq in Hxy. subst y.
+        unfold handle_eqb in *. cbn [list_eqb] in Hne. rewrite Nat.eqb_refl in Hne.
+        cbn [andb] in Hne. destruct (IH hh Hp Hne) as [r [Hr1 Hr2]]. exists r.
+        split; [exact Hr1|]. cbn [app]. congruence. }
+    destruct Hr as [r [Hr1 Hr2]]. cbn [app] in Hr2. injection Hr2 as Hi Hp2. subst k p.
+    exact (upd_ancestor q i r _ _ _ _ _ _ _ _ Hr1 Ub Hf).
+Qed.
+
+(* the literal reading `node_at h' is unchanged for every h' that is not a prefix of h`
+   is false for the handle of the freshly added child: it was invalid, now it is valid *)
+Example append_new_child_handle :
+  let st := fst (wrun [s"#"] (winit (s"T")) [ODirective [] (s"d") []]) in
+  is_prefix [0; 0] [0] = false /\
+  node_at [0; 0] st = None /\
+  node_at [0; 0] (fst (wstep [s"#"] st (OText [0] (s"p")))) = Some (Para (s"p"), 0, 1).
+Proof. vm_compute. repeat split; reflexivity. Qed.
+
+(* ------------------------------------------------------------------ *)
+(* S6: handles stay valid                                               *)
+
+Definition set_title_f (t : str) (e : elem) : option elem :=
+  match e with
+  | Dir _ a o b => Some (Dir t a o b)
+  | Sect _ b => Some (Sect t b)
+  | _ => None
+  end.
+Definition clear_f (e : elem) : option elem :=
+  match e with
+  | Dir n a o _ => Some (Dir n a o [])
+  | Sect t _ => Some (Sect t [])
+  | _ => None
+  end.
+Definition dir_stable (f : elem -> option elem) : Prop :=
+  forall nm a o bd e', f (Dir nm a o bd) = Some e' -> exists o' bd', e' = Dir nm a o' bd'.
+
+Lemma settitle_step_state : forall hdrs st h t,
+  fst (wstep hdrs st (OSetTitle h t)) = app_state h (set_title_f t) st.
+Proof.
+  intros. unfold app_state, set_title_f. cbn [wstep]. destruct (upd_node h _ st); reflexivity.
+Qed.
+
+Lemma clear_step_state : forall hdrs st h,
+  fst (wstep hdrs st (OClear h)) = app_state h clear_f st.
+Proof.
+  intros. unfold app_state, clear_f. cbn [wstep]. destruct (upd_node h _ st); reflexivity.
+Qed.
+
+Lemma section_step_state : forall hdrs st h t,
+  fst (wstep hdrs st (OSection h t)) = st \/
+  fst (wstep hdrs st (OSection h t)) = app_state h (append_child (Sect t [])) st.
+Proof.
+  intros. unfold app_state. cbn [wstep].
+  destruct (own_level h st); [|left; reflexivity].
+  destruct (count_at h st); [|left; reflexivity].
+  destruct (S n <? length hdrs); [|left; reflexivity].
+  destruct (upd_node h (append_child (Sect t [])) st); [right | left]; reflexivity.
+Qed.
+
+Lemma is_prefix_app : forall a b, is_prefix a b = true -> exists r, b = a ++ r.
+Proof.
+  intros a. induction a as [|x a IH]; intros b H; [exists b; reflexivity|].
+  destruct b as [|y b]; [discriminate H|]. cbn [is_prefix] in H.
+  apply andb_true_iff in H. destruct H as [H1 H2]. apply Nat.eqb_eq in H1. subst y.
+  destruct (IH b H2) as [r Hr]. exists r. cbn [app]. congruence.
+Qed.
+
+Lemma is_prefix_antisym : forall a b, is_prefix a b = true -> is_prefix b a = true -> a = b.
+Proof.
+  intros a. induction a as [|x a IH]; intros b H1 H2; destruct b as [|y b];
+    try reflexivity; try discriminate.
+  cbn [is_prefix] in H1, H2. apply andb_true_iff in H1. apply andb_true_iff in H2.
+  destruct H1 as [E1 P1]. destruct H2 as [_ P2]. apply Nat.eqb_eq in E1. subst y.
+  f_equal. exact (IH b P1 P2).
+Qed.
+
+Lemma prefix_trichotomy : forall a b,
+  diverge a b = true \/ is_prefix a b = true \/ is_prefix b a = true.
+Proof.
+  intros a. induction a as [|x a IH]; intros b; [right; left; reflexivity|].
+  destruct b as [|y b]; [right; right; reflexivity|].
+  cbn [diverge is_prefix]. rewrite (Nat.eqb_sym y x).
+  destruct (x =? y); cbn [negb orb andb]; [apply IH | left; reflexivity].
+Qed.
+
+Lemma strict_prefix_spec : forall a b,
+  strict_prefix a b = true <-> is_prefix a b = true /\ a <> b.
+Proof.
+  intros a b. unfold strict_prefix. rewrite andb_true_iff, negb_true_iff.
+  split; intros [H1 H2]; split; try exact H1.
+  - intros E. apply handle_eqb_eq in E. congruence.
+  - destruct (handle_eqb a b) eqn:E; [|reflexivity]. apply handle_eqb_eq in E. contradiction.
+Qed.
+
+Lemma upd_keeps_dir : forall p0 i0 f b b' p i lvl d nm a o bd l' d',
+  upd_in_body p0 i0 f b = Some b' ->
+  find_in_body p i lvl d b = Some (Dir nm a o bd, l', d') ->
+  (i0 :: p0 = i :: p -> dir_stable f) ->
+  (strict_prefix (i0 :: p0) (i :: p) = true -> keeps_children f) ->
+  exists o' bd', find_in_body p i lvl d b' = Some (Dir nm a o' bd', l', d').
+Proof.
+  intros p0 i0 f b b' p i lvl d nm a o bd l' d' H Hf Hs Hk.
+  destruct (list_eq_dec Nat.eq_dec (i0 :: p0) (i :: p)) as [E|NE].
+  - specialize (Hs E). injection E as E1 E2. subst i0 p0.
+    pose proof (find_upd p i f b lvl d _ _ _ Hf) as U.
+    destruct (f (Dir nm a o bd)) as [e'|] eqn:Ef; [|congruence].
+    destruct U as [b'' [U F]]. rewrite H in U. injection U as U. subst b''.
+    destruct (Hs _ _ _ _ _ Ef) as [o' [bd' E']]. subst e'. exists o', bd'. exact F.
+  - destruct (prefix_trichotomy (i :: p) (i0 :: p0)) as [D|[P|P]].
+    + rewrite (upd_diverge p0 i0 f b b' H p i lvl d D). exists o, bd. exact Hf.
+    + destruct (is_prefix_app _ _ P) as [r Hr]. cbn [app] in Hr. injection Hr as E1 E2.
+      subst i0 p0.
+      assert (Hr : r <> []). { intros ->. rewrite app_nil_r in NE. congruence. }
+      destruct (upd_ancestor p i r f b b' lvl d _ _ _ Hr H Hf) as [e' [F S]].
+      destruct e'; cbn [same_head] in S; try contradiction.
+      destruct S as [S1 [S2 S3]]. subst. eexists _, _. exact F.
+    + assert (SP : strict_prefix (i0 :: p0) (i :: p) = true).
+      { apply strict_prefix_spec. split; assumption. }
+      assert (NP : is_prefix (i :: p) (i0 :: p0) = false).
+      { destruct (is_prefix (i :: p) (i0 :: p0)) eqn:Q; [|reflexivity].
+        exfalso. apply NE. apply is_prefix_antisym; assumption. }
+      exists o, bd. exact (upd_other p0 i0 f b b' H (Hk SP) p i lvl d _ NP Hf).
+Qed.
+
+Lemma app_state_keeps : forall h0 f st h nm a o bd lvl d,
+  node_at h st = Some (Dir nm a o bd, lvl, d) -> h0 <> [] ->
+  (h0 = h -> dir_stable f) -> (strict_prefix h0 h = true -> keeps_children f) ->
+  exists o' bd', node_at h (app_state h0 f st) = Some (Dir nm a o' bd', lvl, d).
+Proof.
+  intros h0 f st h nm a o bd lvl d Hn H0 Hs Hk.
+  destruct h0 as [|i0 p0]; [congruence|]. destruct h as [|i p]; [discriminate Hn|].
+  unfold app_state. rewrite upd_node_cons.
+  destruct (upd_in_body p0 i0 f (w_body st)) as [b'|] eqn:U; [|exists o, bd; exact Hn].
+  cbn [node_at w_body] in *. exact (upd_keeps_dir _ _ _ _ _ _ _ _ _ _ _ _ _ _ _ U Hn Hs Hk).
+Qed.
+
+Lemma dir_stable_append : forall x, dir_stable (append_child x).
+Proof. intros x nm a o bd e' H. injection H as H. subst e'. eauto. Qed.
+Lemma dir_stable_add_opt : forall n v, dir_stable (add_opt n v).
+Proof. intros n v nm a o bd e' H. injection H as H. subst e'. eauto. Qed.
+Lemma dir_stable_clear : dir_stable clear_f.
+Proof. intros nm a o bd e' H. injection H as H. subst e'. eauto. Qed.
+Lemma keeps_children_set_title : forall t, keeps_children (set_title_f t).
+Proof.
+  intros t e e' H q j lvl d v Hf.
+  destruct e; try discriminate H; cbn [set_title_f] in H; injection H as H; subst e'; exact Hf.
+Qed.
+
+Lemma append_keeps : forall h0 x st h nm a o bd lvl d,
+  node_at h st = Some (Dir nm a o bd, lvl, d) ->
+  exists o' bd', node_at h (app_state h0 (append_child x) st) = Some (Dir nm a o' bd', lvl, d).
+Proof.
+  intros h0 x st h nm a o bd lvl d Hn. destruct h0 as [|i0 p0].
+  - exists o, bd. unfold app_state. cbn [upd_node append_child].
+    destruct h as [|i p]; [discriminate Hn|]. cbn [node_at w_body] in *.
+    apply find_app. exact Hn.
+  - eapply app_state_keeps; [exact Hn | discriminate | |].
+    + intros _. apply dir_stable_append.
+    + intros _. apply keeps_children_append.
+Qed.
+
+Lemma step_keeps_handle : forall hdrs st op h nm a o bd lvl d,
+  node_at h st = Some (Dir nm a o bd, lvl, d) -> harmless h op = true ->
+  exists o' bd', node_at h (fst (wstep hdrs st op)) = Some (Dir nm a o' bd', lvl, d).
+Proof.
+  intros hdrs st op h nm a o bd lvl d Hn Hh.
+  destruct (content_op op) as [[h0 x]|] eqn:Ec.
+  { rewrite (content_step_state hdrs st op h0 x Ec). eapply append_keeps; exact Hn. }
+  destruct op as [| | | | |h0 n0 a0|h0 t0|h0 n0 v0|h0 t0|h0|h0]; try discriminate Ec.
+  - rewrite directive_step_state. eapply append_keeps; exact Hn.
+  - destruct (section_step_state hdrs st h0 t0) as [E|E]; rewrite E.
+    + exists o, bd. exact Hn.
+    + eapply append_keeps; exact Hn.
+  - destruct h0 as [|i0 p0]; [exists o, bd; exact Hn|].
+    rewrite option_step_state. eapply app_state_keeps; [exact Hn | discriminate | |].
+    + intros _. apply dir_stable_add_opt.
+    + intros _. apply keeps_children_add_opt.
+  - rewrite settitle_step_state. cbn [harmless] in Hh. apply negb_true_iff in Hh.
+    destruct h0 as [|i0 p0].
+    + exists o, bd. unfold app_state. cbn [upd_node set_title_f].
+      destruct h as [|i p]; [discriminate Hn|]. exact Hn.
+    + eapply app_state_keeps; [exact Hn | discriminate | |].
+      * intros E. apply handle_eqb_eq in E. congruence.
+      * intros _. apply keeps_children_set_title.
+  - rewrite clear_step_state. cbn [harmless] in Hh. apply negb_true_iff in Hh.
+    destruct h0 as [|i0 p0].
+    + destruct h as [|i p]; [discriminate Hn | discriminate Hh].
+    + eapply app_state_keeps; [exact Hn | discriminate | |].
+      * intros _. apply dir_stable_clear.
+      * intros E. congruence.
+  - rewrite to_text_pure. exists o, bd. exact Hn.
+Qed.
+
+(* a valid directive handle keeps naming a directive with the same name and arguments,
+   at the same section level and depth, through any run of harmless operations *)
+Theorem handles_stable : forall hdrs ops st h nm a o bd lvl d,
+  node_at h st = Some (Dir nm a o bd, lvl, d) -> forallb (harmless h) ops = true ->
+  exists o' bd', node_at h (fst (wrun hdrs st ops)) = Some (Dir nm a o' bd', lvl, d).
+Proof.
+  intros hdrs ops. induction ops as [|op r IH]; intros st h nm a o bd lvl d Hn Hh.
+  - exists o, bd. exact Hn.
+  - cbn [forallb] in Hh. apply andb_true_iff in Hh. destruct Hh as [H1 H2].
+    rewrite wrun_cons_fst.
+    destruct (step_keeps_handle hdrs st op h _ _ _ _ _ _ Hn H1) as [o1 [bd1 N1]].
+    exact (IH _ _ _ _ _ _ _ _ N1 H2).
+Qed.
+
+Lemma find_snoc : forall p i n lvl d b,
+  find_in_body (p ++ [n]) i lvl d b
+  = match find_in_body p i lvl d b with
+    | Some (e, l', d') => sub_find [] n l' d' e
+    | None => None
+    end.
+Proof.
+  intros p. induction p as [|j p IH]; intros i n lvl d b.
+  - cbn [app]. rewrite find_in_body_cons, find_in_body_nil.
+    destruct (nth_error b i); reflexivity.
+  - cbn [app]. rewrite !find_in_body_cons. destruct (nth_error b i) as [e|]; [|reflexivity].
+    destruct e; try reflexivity; cbn [sub_find]; apply IH.
+Qed.
+
+(* the handle returned by directive() names the new, empty directive *)
+Theorem directive_handle_valid : forall hdrs st h nm a st' h',
+  wstep hdrs st (ODirective h nm a) = (st', WHandle h') ->
+  exists lvl d, node_at h' st' = Some (Dir nm a [] [], lvl, d).
+Proof.
+  intros hdrs st h nm a st' h' H. cbn [wstep] in H.
+  destruct (count_at h st) as [n|] eqn:Ec; [|discriminate H].
+  destruct (upd_node h (append_child (Dir nm a [] [])) st) as [st1|] eqn:U; [|discriminate H].
+  injection H as H1 H2. subst st1 h'. destruct h as [|i p].
+  - cbn [upd_node append_child] in U. injection U as U. subst st'.
+    cbn [count_at] in Ec. injection Ec as Ec. subst n. exists 0, 0.
+    cbn [app node_at w_body]. rewrite find_in_body_nil.
+    rewrite nth_error_app2 by lia. rewrite Nat.sub_diag. reflexivity.
+  - rewrite upd_node_cons in U.
+    destruct (upd_in_body p i (append_child (Dir nm a [] [])) (w_body st)) as [b'|] eqn:Ub;
+      [|discriminate U]. injection U as U. subst st'.
+    destruct (upd_valid _ _ _ _ _ 0 0 Ub) as [e [l' [d' [F Ne]]]].
+    pose proof (find_upd p i (append_child (Dir nm a [] [])) _ _ _ _ _ _ F) as FU.
+    cbn [count_at node_at] in Ec. rewrite F in Ec.
+    change ((i :: p) ++ [n]) with (i :: (p ++ [n])). cbn [node_at w_body]. rewrite find_snoc.
+    destruct e as [| | | |n1 a1 o1 body|t1 body]; try (exfalso; apply Ne; reflexivity);
+      cbn [append_child children_count] in FU, Ec; injection Ec as Ec; subst n;
+      destruct FU as [b'' [U2 F2]]; rewrite Ub in U2; injection U2 as U2; subst b'';
+      rewrite F2; cbn [sub_find]; rewrite find_in_body_nil;
+      rewrite nth_error_app2 by lia; rewrite Nat.sub_diag; eexists _, _; reflexivity.
+Qed.
+
+Theorem directive_handle_stable : forall hdrs st h nm a st' h' ops,
+  wstep hdrs st (ODirective h nm a) = (st', WHandle h') ->
+  forallb (harmless h') ops = true ->
+  exists o' bd' lvl d, node_at h' (fst (wrun hdrs st' ops)) = Some (Dir nm a o' bd', lvl, d).
+Proof.
+  intros hdrs st h nm a st' h' ops H Hh.
+  destruct (directive_handle_valid _ _ _ _ _ _ _ H) as [lvl [d N]].
+  destruct (handles_stable hdrs ops st' h' _ _ _ _ _ _ N Hh) as [o' [bd' N']].
+  exists o', bd', lvl, d. exact N'.
+Qed.
+
+(* the two exclusions are necessary *)
+Example clear_ancestor_invalidates :
+  let st := fst (wrun [s"#"] (winit (s"T"))
+                   [ODirective [] (s"outer") []; ODirective [0] (s"inner") []]) in
+  node_at [0; 0] st = Some (Dir (s"inner") [] [] [], 0, 1) /\
+  node_at [0; 0] (fst (wstep [s"#"] st (OClear [0]))) = None /\
+  node_at [0; 0] (fst (wstep [s"#"] st (OClear []))) = None.
+Proof. vm_compute. repeat split; reflexivity. Qed.
+
+Example set_title_renames :
+  let st := fst (wrun [s"#"] (winit (s"T")) [ODirective [] (s"d") [s"x"]]) in
+  node_at [0] (fst (wstep [s"#"] st (OSetTitle [0] (s"e")))) = Some (Dir (s"e") [s"x"] [] [], 0, 0).
+Proof. vm_compute. reflexivity. Qed.
+
+Example handles_stable_nonvacuous :
+  let st := fst (wrun [s"#"; s"*"] (winit (s"T"))
+                   [ODirective [] (s"outer") []; ODirective [0] (s"inner") [s"q"]]) in
+  let ops := [OText [0] (s"p"); OOption [0; 0] (s"k") (s"v"); OClear [0; 0]; OSetTitle [0] (s"o2");
+              OSection [] (s"sec"); OText [0; 0] (s"again"); OClear [1]] in
+  forallb (harmless [0; 0]) ops = true /\
+  node_at [0; 0] (fst (wrun [s"#"; s"*"] st ops))
+  = Some (Dir (s"inner") [s"q"] [(s"k", s"v")] [Para (s"again")], 0, 1).
+Proof. vm_compute. split; reflexivity. Qed.
+
+(* ==== MAIN THEOREMS ====
+   S0  split_on_app_sep split_on_no_sep split_on_no_sep_In split_join join_split
+       split_on_nonempty concat_split repeat_str_single length_repeat_str_single
+   S1  to_text_pure to_text_run_pure to_text_run_outputs to_text_repeatable wrun_app
+   S2  heading_frame heading_frame_lines heading_lines_gen doc_text_starts_with_frame
+       sect_uses_next_level retitle_reframes retitle_then_text clear_keeps_title
+   S3  lines_indented para_lines length_indent field_lines bullet_lines enum_lines_exact
+       dir_lines_gen dir_lines option_lines dir_content_deeper
+       (necessity of the side conditions: doctest_not_indented field_newline_not_indented)
+   S4  options_before_content option_then_content_commute option_then_text_commute
+       dir_accumulates interleaving_irrelevant
+   S5  body_text_app order_preserved append_at_handle
+       (literal reading refuted for the new child: append_new_child_handle)
+   S6  handles_stable directive_handle_valid directive_handle_stable
+       (necessity of the exclusions: clear_ancestor_invalidates set_title_renames)
+*)
+Print Assumptions split_on_app_sep.
+Print Assumptions split_on_no_sep.
+Print Assumptions split_join.
+Print Assumptions join_split.
+Print Assumptions concat_split.
+Print Assumptions repeat_str_single.
+Print Assumptions to_text_pure.
+Print Assumptions to_text_run_pure.
+Print Assumptions to_text_run_outputs.
+Print Assumptions to_text_repeatable.
+Print Assumptions wrun_app.
+Print Assumptions heading_frame.
+Print Assumptions heading_frame_lines.
+Print Assumptions heading_lines_gen.
+Print Assumptions doc_text_starts_with_frame.
+Print Assumptions sect_uses_next_level.
+Print Assumptions retitle_reframes.
+Print Assumptions retitle_then_text.
+Print Assumptions clear_keeps_title.
+Print Assumptions lines_indented.
+Print Assumptions para_lines.
+Print Assumptions length_indent.
+Print Assumptions field_lines.
+Print Assumptions bullet_lines.
+Print Assumptions enum_lines_exact.
+Print Assumptions dir_lines_gen.
+Print Assumptions dir_lines.
+Print Assumptions dir_content_deeper.
+Print Assumptions options_before_content.
+Print Assumptions option_then_content_commute.
+Print Assumptions dir_accumulates.
+Print Assumptions interleaving_irrelevant.
+Print Assumptions body_text_app.
+Print Assumptions order_preserved.
+Print Assumptions append_at_handle.
+Print Assumptions handles_stable.
+Print Assumptions directive_handle_valid.
+Print Assumptions directive_handle_stable.
